@@ -11,6 +11,7 @@ import PygModel.Bump
 import PygProofs.Lemmas.BumpLemmas
 import PygProofs.Lemmas.MonthLemmas
 import PygProofs.Lemmas.TokenLemmas
+import PygProofs.Lemmas.BumpStrLemmas
 
 namespace Pyg.Props.C09
 open Pyg Pyg.Bump Pyg.Gen Pyg.Greg
@@ -80,7 +81,8 @@ theorem b_inverse (o n : Int) (h : wd o < 5) :
 time of day unchanged -/
 theorem b_datetime (t n t' : Int) (h : applyStep t (.bday n) = .ok t') :
     ordOf t' = ordOf t + bOff (wd (ordOf t)) n ∧ todOf t' = todOf t ∧ wd (ordOf t') < 5 := by
-  simp only [applyStep, wdOf, checkRange_ok] at h
+  have h := bday_ok t n t' h
+  simp only [wdOf] at h
   rw [h.2]
   refine ⟨ordOf_add_days _ _, todOf_add_days _ _, ?_⟩
   rw [ordOf_add_days]; exact b_lands _ _
@@ -98,7 +100,8 @@ theorem b_mono_intraday_false :
 monotonicity does hold: here for any two instants on weekdays -/
 theorem b_mono_weekdays (t₁ t₂ n r₁ r₂ : Int) (h : t₁ ≤ t₂) (w₁ : wdOf t₁ < 5) (w₂ : wdOf t₂ < 5)
     (h₁ : applyStep t₁ (.bday n) = .ok r₁) (h₂ : applyStep t₂ (.bday n) = .ok r₂) : r₁ ≤ r₂ := by
-  simp only [applyStep, checkRange_ok] at h₁ h₂
+  have h₁ := bday_ok _ _ _ h₁
+  have h₂ := bday_ok _ _ _ h₂
   rw [h₁.2, h₂.2]
   by_cases hd : ordOf t₁ = ordOf t₂
   · unfold wdOf; rw [hd]; omega
@@ -278,5 +281,483 @@ theorem named_resolve :
     resolveNamed "t/n".toList = "2b".toList ∧ resolveNamed "s/n".toList = "3b".toList ∧
     resolveNamed "on".toList = "1b".toList ∧ resolveNamed "tn".toList = "2b".toList ∧
     resolveNamed "sn".toList = "3b".toList := by decide
+
+/-- `dt(t, *bumps)` (`reduce(dt_bump, bumps, t)`, one call per argument) is `dt_bump(t, *bumps)` -/
+theorem dt_reduce_eq_dtBump (t : Int) (bs : List BumpArg) : dtReduce t bs = dtBump t bs := by
+  induction bs generalizing t with
+  | nil => rfl
+  | cons b bs ih =>
+    simp only [dtReduce, dtBump]
+    cases bumpOne t b with
+    | error e => rfl
+    | ok t' => simp only [Except.bind]; exact ih t'
+
+/-- `dt(bump)` for a period text is `dt_bump(today, bump)` -/
+theorem dt_of_bump (today n : Int) (u : Char) (hu : u ∈ periodUnits) :
+    dtOfBump today (tenor n u) = some (bumpStr today (tenor n u)) := by
+  unfold dtOfBump isPeriod tenor
+  rw [String.toList_ofList]
+  have := nextToken_tenor n u hu []
+  simp only [List.append_nil] at this
+  simp only [this, Option.isSome_some, if_true, dtBump, bumpOne]
+  cases bumpStr today (String.ofList (tenorCs n u)) <;> rfl
+
+/-! ### end to end: the same statements on the STRING a caller passes (`tenor n u` is `'%d%s' % (n, u)`) -/
+
+/-- a compound tenor written with `'%d%s'` parts is tokenised into exactly those parts -/
+theorem bumpStr_tenors_toks (t : Int) (ps : List (Int × Char)) (hu : ∀ p ∈ ps, LowerUnit p.2) :
+    bumpStr t (tenors ps) = runToks t (ps.map fun p => numTok p.1 p.2) := by
+  unfold bumpStr
+  rw [lower_tenors ps (fun p hp => (hu p hp).2), resolveNamed_parts]
+  have e : (ps.flatMap fun p => tenorCs p.1 p.2) = (ps.map fun p => numTok p.1 p.2).flatMap Tok.text := by
+    rw [List.flatMap_map]; congr 1; funext p; exact (numTok_text p.1 p.2).symm
+  rw [e]
+  apply tenor_left_to_right
+  intro k hk
+  simp only [List.mem_map] at hk
+  obtain ⟨p, hp, rfl⟩ := hk
+  exact numTok_wf p.1 p.2 (hu p hp).1
+
+/-- a single `'%d%s' % (n, u)`: the numeral is read back as `n` and the unit table decides the step.  `u` may be written in
+either case (`bump.lower()`) -/
+theorem bumpStr_unit (t n : Int) (u : Char) (hu : u ∈ periodUnits) (st : Step) (hst : bumpUnit u.toLower n = some st) :
+    bumpStr t (tenor n u) = applyStep t st := by
+  have hl := toLower_unit u hu
+  unfold bumpStr
+  rw [lower_tenor]
+  obtain ⟨c, r, e, h⟩ := numText_head n
+  have e2 : tenorCs n u.toLower = c :: (r ++ [u.toLower]) := by unfold tenorCs; rw [e]; rfl
+  rw [e2, resolveNamed_num c _ h, ← e2]
+  have := tenor_left_to_right [numTok n u.toLower] (by intro k hk; simp only [List.mem_singleton] at hk; subst hk; exact numTok_wf _ _ hl.1) t
+  simp only [List.flatMap_cons, List.flatMap_nil, List.append_nil, numTok_text] at this
+  rw [this]
+  simp only [runToks, applyTok, numTok_value]
+  have hu' : (numTok n u.toLower).unit = u.toLower := rfl
+  rw [hu', hst]
+  show (applyStep t st).bind (fun t' => .ok t') = applyStep t st
+  cases applyStep t st <;> rfl
+
+example : bumpUnit 'B'.toLower (-3) = some (.bday (-3)) ∧ 'B' ∈ periodUnits := by decide
+
+/-- compound tenors such as `'1y-3m2d'` apply their parts left to right: the compound text does what `dt_bump` called with
+the parts as separate arguments does -/
+theorem tenors_left_to_right (t : Int) (ps : List (Int × Char)) (hu : ∀ p ∈ ps, LowerUnit p.2) :
+    bumpStr t (tenors ps) = dtBump t (ps.map fun p => .str (tenor p.1 p.2)) := by
+  rw [bumpStr_tenors_toks t ps hu]
+  induction ps generalizing t with
+  | nil => rfl
+  | cons p ps ih =>
+    have h1 := bumpStr_tenors_toks t [p] (by intro q hq; simp only [List.mem_singleton] at hq; rw [hq]; exact hu p (by simp))
+    have e1 : tenors [p] = tenor p.1 p.2 := by unfold tenors tenor; simp
+    rw [e1] at h1
+    simp only [List.map_cons, runToks, dtBump, bumpOne, List.map_nil] at h1 ⊢
+    rw [h1]
+    cases applyTok t (numTok p.1 p.2) with
+    | error e => rfl
+    | ok t' => simp only [Except.bind]; exact ih t' (fun q hq => hu q (by simp [hq]))
+
+example : tenors [(1, 'y'), (-3, 'm'), (2, 'd')] = "1y-3m2d" ∧ ∀ p ∈ [((1 : Int), 'y'), (-3, 'm'), (2, 'd')], LowerUnit p.2 := by decide
+
+/-- `dt_bump(t, '%db' % n)` is the business-day step -/
+theorem bumpStr_b (t n : Int) : bumpStr t (tenor n 'b') = applyStep t (.bday n) :=
+  bumpStr_unit t n 'b' (by decide) _ (unit_table n).2.2.2.2.2.2.2.2
+
+/-- `'nb'` lands on a weekday -/
+theorem b_lands_str (t n r : Int) (h : bumpStr t (tenor n 'b') = .ok r) : wdOf r < 5 := by
+  rw [bumpStr_b] at h; exact (b_datetime t n r h).2.2
+
+/-- from a weekday, `'kb'` is the k-th weekday after `t` and `'-kb'` the k-th weekday before, at the same time of day -/
+theorem b_nth_str (t : Int) (w : wdOf t < 5) (k : Nat) (r : Int) :
+    (bumpStr t (tenor k 'b') = .ok r → ordOf r = iter nextWd k (ordOf t) ∧ todOf r = todOf t) ∧
+    (bumpStr t (tenor (-(k : Int)) 'b') = .ok r → ordOf r = iter prevWd k (ordOf t) ∧ todOf r = todOf t) := by
+  constructor <;> intro h <;> rw [bumpStr_b] at h <;> have := b_datetime _ _ _ h
+  · rw [b_nth_fwd _ w]; exact ⟨this.1, this.2.1⟩
+  · rw [b_nth_bwd _ w]; exact ⟨this.1, this.2.1⟩
+
+example : wdOf 63082627200000000 < 5 ∧ okVal (bumpStr 63082627200000000 (tenor 3 'b')) = some 63083059200000000 := by decide +kernel  -- Wed 2000-01-05 + 3b
+
+/-- from a Saturday / Sunday, `'nb'` is `'nb'` from the following Monday at the same time of day — errors included -/
+theorem b_weekend_roll_str (t n : Int) (h : 5 ≤ wdOf t) :
+    wdOf (t + (7 - wdOf t) * DAYUS) = 0 ∧
+    bumpStr t (tenor n 'b') = bumpStr (t + (7 - wdOf t) * DAYUS) (tenor n 'b') := by
+  have hw : wdOf (t + (7 - wdOf t) * DAYUS) = 0 := by
+    unfold wdOf at *; rw [ordOf_add_days]; unfold wd at *; omega
+  refine ⟨hw, ?_⟩
+  rw [bumpStr_b, bumpStr_b]
+  simp only [applyStep, bOffPath_eq, hw]
+  have h4 : wdOf t > 4 := by omega
+  have hb : bOff (wdOf t) n = (7 - wdOf t) + bOff 0 n := by
+    have := (b_weekend_roll (ordOf t) n h).2; unfold wdOf; omega
+  simp only [h4, if_true, hb, walkDays]
+  have e0 : ¬ ((0 : Int) > 4) := by omega
+  simp only [e0, if_false]
+  have a1 : t + (7 - wdOf t) * DAYUS + 0 * DAYUS = t + (7 - wdOf t) * DAYUS := by unfold DAYUS; omega
+  have a2 : t + (7 - wdOf t) * DAYUS + (0 + 7 * (n / 5)) * DAYUS = t + (7 - wdOf t + 7 * (n / 5)) * DAYUS := by
+    unfold DAYUS; omega
+  have a3 : t + (7 - wdOf t) * DAYUS + bOff 0 n * DAYUS = t + (7 - wdOf t + bOff 0 n) * DAYUS := by
+    unfold DAYUS; omega
+  rw [a1, a2, a3]
+
+example : (5 : Int) ≤ wdOf 63082281600000000 := by decide +kernel    -- Sat 2000-01-01
+
+/-- same-sign bumps compose from a weekday: `'ab'` then `'bb'` is `'(a+b)b'`.  (`hlo`: for negative bumps the result must not
+be in the first six days of year 1, where the single bump constructs an unrepresentable intermediate date.) -/
+theorem b_compose_str (t a b r₁ r₂ : Int) (w : wdOf t < 5) (hs : (0 ≤ a ∧ 0 ≤ b) ∨ (a ≤ 0 ∧ b ≤ 0))
+    (hlo : (0 ≤ a ∧ 0 ≤ b) ∨ 6 * DAYUS ≤ r₂)
+    (h₁ : bumpStr t (tenor a 'b') = .ok r₁) (h₂ : bumpStr r₁ (tenor b 'b') = .ok r₂) :
+    bumpStr t (tenor (a + b) 'b') = .ok r₂ := by
+  rw [bumpStr_b, bday_ok_ord] at h₁ h₂ ⊢
+  obtain ⟨p₁, e₁⟩ := h₁
+  obtain ⟨p₂, e₂⟩ := h₂
+  have hc := b_compose (ordOf t) a b w hs
+  have o1 : ordOf r₁ = ordOf t + bOff (wd (ordOf t)) a := by rw [e₁]; exact ordOf_add_days _ _
+  rw [o1] at p₂ e₂
+  have hlo' : (0 ≤ a ∧ 0 ≤ b) ∨ 7 ≤ ordOf r₂ := by
+    rcases hlo with h | h
+    · exact Or.inl h
+    · right; unfold ordOf DAYUS at *; omega
+  have o2 : ordOf r₂ = ordOf t + bOff (wd (ordOf t)) (a + b) := by
+    rw [e₂, ordOf_add_days, o1, ← hc]
+  constructor
+  · rw [bOffPath_eq] at p₁ p₂ ⊢
+    simp only [List.mem_cons, List.not_mem_nil, or_false, forall_eq_or_imp, forall_eq] at p₁ p₂ ⊢
+    rw [hc] at p₂
+    rw [o2] at hlo'
+    unfold wdOf at w
+    have w4 : ¬ wd (ordOf t) > 4 := by omega
+    simp only [w4, if_false] at p₁ ⊢
+    refine ⟨p₁.1, ?_, p₂.2.2⟩
+    have p3 := p₂.2.2
+    have p0 := p₁.1
+    have bw := bOff_weeks (wd (ordOf t)) (a + b) ⟨(wd_range _).1, w⟩
+    omega
+  · have : bOff (wd (ordOf t)) (a + b) = bOff (wd (ordOf t)) a + bOff (wd (ordOf t + bOff (wd (ordOf t)) a)) b := by omega
+    rw [e₂, e₁, this, Int.add_mul]; omega
+
+example : wdOf 63082627200000000 < 5 ∧ okVal (bumpStr 63082627200000000 (tenor 7 'b')) = some 63083404800000000 ∧
+    okVal (bumpStr 63083404800000000 (tenor 4 'b')) = some 63083923200000000 := by decide +kernel
+
+/-- `+n` then `-n` business days returns to `t`, from a weekday (`hlo`: `t` on or after 0001-01-07 — in the first six days of
+year 1 the way back constructs an unrepresentable intermediate date and the code raises OverflowError) -/
+theorem b_inverse_str (t n r : Int) (w : wdOf t < 5) (hlo : 6 * DAYUS ≤ t) (h : bumpStr t (tenor n 'b') = .ok r) :
+    bumpStr r (tenor (-n) 'b') = .ok t := by
+  rw [bumpStr_b, bday_ok_ord] at h ⊢
+  obtain ⟨p, e⟩ := h
+  have hi := b_inverse (ordOf t) n w
+  have o1 : ordOf r = ordOf t + bOff (wd (ordOf t)) n := by rw [e]; exact ordOf_add_days _ _
+  have hlo' : 7 ≤ ordOf t := by unfold ordOf DAYUS at *; omega
+  rw [o1]
+  constructor
+  · rw [bOffPath_eq] at p ⊢
+    simp only [List.mem_cons, List.not_mem_nil, or_false, forall_eq_or_imp, forall_eq] at p ⊢
+    have hl := b_lands (ordOf t) n
+    have w4 : ¬ wd (ordOf t + bOff (wd (ordOf t)) n) > 4 := by omega
+    simp only [w4, if_false]
+    rw [hi]
+    unfold wdOf at w
+    have w4' : ¬ wd (ordOf t) > 4 := by omega
+    simp only [w4', if_false] at p
+    refine ⟨by have := p.2.2; omega, ?_, by have := p.1; omega⟩
+    have p0 := p.1
+    have bw := bOff_weeks (wd (ordOf t + bOff (wd (ordOf t)) n)) (-n) ⟨(wd_range _).1, hl⟩
+    omega
+  · rw [e]
+    have : bOff (wd (ordOf t + bOff (wd (ordOf t)) n)) (-n) = - bOff (wd (ordOf t)) n := by omega
+    rw [this, Int.neg_mul]; omega
+
+example : wdOf 63082627200000000 < 5 ∧ 6 * DAYUS ≤ 63082627200000000 ∧
+    okVal (bumpStr 63082627200000000 (tenor (-13) 'b')) = some 63080985600000000 := by decide +kernel
+
+/-! ### fixed-length and month units: exactness and inverses, stated on the unit table and on strings -/
+
+/-- `+x` then `-x` for a fixed-length unit, as a statement about the UNIT TABLE: whatever step the table gives for `(c, n)`
+and for `(c, -n)`, the second undoes the first (for a datetime `t`) -/
+theorem fixed_inverse_table (c : Char) (us : Int) (hc : unitUs c = some us) (t n r : Int) (ht : InRange t) :
+    ∃ st st', bumpUnit c n = some st ∧ bumpUnit c (-n) = some st' ∧ (applyStep t st = .ok r → applyStep r st' = .ok t) := by
+  obtain ⟨st, h1, e1⟩ := fixed_units_exact t n c us hc
+  obtain ⟨st', h2, e2⟩ := fixed_units_exact r (-n) c us hc
+  refine ⟨st, st', h1, h2, ?_⟩
+  intro h
+  rw [e1, checkRange_ok] at h
+  rw [e2, checkRange_ok, h.2, Int.neg_mul]
+  exact ⟨by have : t + n * us + -(n * us) = t := by omega
+            rw [this]; exact ht, by omega⟩
+
+example : unitUs 'h' = some 3600000000 ∧ InRange 63082281600000000 := by decide
+
+/-- `dt_bump(t, '%d%s' % (n, c))` for `c` in d/w/h/n/s adds exactly `n` days / weeks / hours / minutes / seconds -/
+theorem fixed_exact_str (c : Char) (us : Int) (hc : unitUs c = some us) (t n : Int) :
+    bumpStr t (tenor n c) = checkRange (t + n * us) := by
+  obtain ⟨st, h1, e1⟩ := fixed_units_exact t n c us hc
+  have hcu : c ∈ periodUnits ∧ c.toLower = c := by
+    unfold unitUs at hc; split at hc <;> first | (constructor <;> decide) | cases hc
+  rw [← e1]; exact bumpStr_unit t n c hcu.1 st (by rw [hcu.2]; exact h1)
+
+/-- `+x` then `-x` returns to `t` for the fixed-length units, on strings: `dt_bump(dt_bump(t, 'nd'), '-nd') = t` -/
+theorem fixed_inverse_str (c : Char) (us : Int) (hc : unitUs c = some us) (t n r : Int) (ht : InRange t)
+    (h : bumpStr t (tenor n c) = .ok r) : bumpStr r (tenor (-n) c) = .ok t := by
+  rw [fixed_exact_str c us hc] at h ⊢
+  rw [checkRange_ok] at h
+  rw [checkRange_ok, h.2, Int.neg_mul]
+  exact ⟨by have : t + n * us + -(n * us) = t := by omega
+            rw [this]; exact ht, by omega⟩
+
+example : okVal (bumpStr 63082281600000000 (tenor (-36) 'h')) = some 63082152000000000 := by decide +kernel
+
+/-- `+x` then `-x` returns for month / quarter / year steps from a day of month ≤ 28 — every start date of years 1..9999, no
+condition on the target other than that the first bump succeeded -/
+theorem month_inverse_all (y m d : Nat) (v : Valid y m d) (hd : d ≤ 28) (dy dm r : Int)
+    (h : applyStep (mkDate y m d) (.ymdShift dy dm) = .ok r) :
+    applyStep r (.ymdShift (-dy) (-dm)) = .ok (mkDate y m d) := by
+  rw [ymdShift_small y m d v hd] at h
+  obtain ⟨y', m', hym, h1, h2, h3, h4, hr⟩ := h
+  have hv := v
+  unfold Valid at hv
+  have hb' := dim_bounds y' m' h3 h4
+  have v' : Valid y' m' d := by unfold Valid; omega
+  rw [hr, ymdShift_small y' m' d v' hd]
+  have hn := ym_normal ((y : Int) + dy) ((m : Int) + dm)
+  rw [hym] at hn
+  exact ⟨y, m, ym_of_normal _ _ _ _ (by omega) (by omega) (by omega), hv.1, hv.2.1, hv.2.2.1, hv.2.2.2.1, rfl⟩
+
+/-- the same as a statement about the unit table: for `m`, `q`, `y` the step the table gives for `-n` undoes the step for `n` -/
+theorem month_inverse_table (c : Char) (hc : c = 'm' ∨ c = 'q' ∨ c = 'y') (y m d : Nat) (v : Valid y m d) (hd : d ≤ 28) (n r : Int) :
+    ∃ st st', bumpUnit c n = some st ∧ bumpUnit c (-n) = some st' ∧
+      (applyStep (mkDate y m d) st = .ok r → applyStep r st' = .ok (mkDate y m d)) := by
+  have T := month_units n
+  have T' := month_units (-n)
+  rcases hc with rfl | rfl | rfl
+  · refine ⟨_, _, T.1, T'.1, fun h => ?_⟩
+    have := month_inverse_all y m d v hd 0 n r h
+    rwa [Int.neg_zero] at this
+  · refine ⟨_, _, T.2.1, T'.2.1, fun h => ?_⟩
+    have := month_inverse_all y m d v hd 0 (3 * n) r h
+    rwa [Int.neg_zero, ← Int.mul_neg] at this
+  · refine ⟨_, _, T.2.2, T'.2.2, fun h => ?_⟩
+    have := month_inverse_all y m d v hd n 0 r h
+    rwa [Int.neg_zero] at this
+
+/-- … and on strings: `dt_bump(dt_bump(t, 'nq'), '-nq') = t` when `t` is a date (midnight) with day ≤ 28 -/
+theorem month_inverse_str (c : Char) (hc : c = 'm' ∨ c = 'q' ∨ c = 'y') (y m d : Nat) (v : Valid y m d) (hd : d ≤ 28) (n r : Int)
+    (h : bumpStr (mkDate y m d) (tenor n c) = .ok r) : bumpStr r (tenor (-n) c) = .ok (mkDate y m d) := by
+  obtain ⟨st, st', h1, h2, hi⟩ := month_inverse_table c hc y m d v hd n r
+  have hcu : c ∈ periodUnits ∧ c.toLower = c := by rcases hc with rfl | rfl | rfl <;> decide
+  rw [bumpStr_unit _ n c hcu.1 st (by rw [hcu.2]; exact h1)] at h
+  rw [bumpStr_unit _ (-n) c hcu.1 st' (by rw [hcu.2]; exact h2)]
+  exact hi h
+
+example : Valid 2023 11 28 ∧ okVal (bumpStr (mkDate 2023 11 28) (tenor 1 'q')) = some (mkDate 2024 2 28) := by decide +kernel
+
+/-- `'nm'`/`'nq'`/`'ny'` on strings from a date at midnight: keep the day of month or roll the excess into the following month -/
+theorem month_keep_or_roll_str (c : Char) (k : Int) (hc : (c = 'm' ∧ k = 1) ∨ (c = 'q' ∧ k = 3) ∨ (c = 'y' ∧ k = 12))
+    (y m d : Nat) (v : Valid y m d) (n : Int) (y' m' : Nat)
+    (hym : Gen.ym (y : Int) ((m : Int) + k * n) = ((y' : Int), (m' : Int))) (hy' : 1 ≤ y' ∧ y' < 9999) :
+    bumpStr (mkDate y m d) (tenor n c) =
+      .ok (if d ≤ dim y' m' then mkDate y' m' d
+           else mkDate (nextMonth y' m').1 (nextMonth y' m').2 (d - dim y' m')) := by
+  have T := month_units n
+  rcases hc with ⟨rfl, rfl⟩ | ⟨rfl, rfl⟩ | ⟨rfl, rfl⟩
+  · rw [bumpStr_unit _ n 'm' (by decide) _ T.1]
+    exact month_keep_or_roll y m d v 0 n y' m' ((ym_congr _ _ _ _ (by omega)).trans hym) hy'
+  · rw [bumpStr_unit _ n 'q' (by decide) _ T.2.1]
+    exact month_keep_or_roll y m d v 0 (3 * n) y' m' ((ym_congr _ _ _ _ (by omega)).trans hym) hy'
+  · rw [bumpStr_unit _ n 'y' (by decide) _ T.2.2]
+    exact month_keep_or_roll y m d v n 0 y' m' ((ym_congr _ _ _ _ (by omega)).trans hym) hy'
+
+-- 2000-01-31 + 1m = 2000-03-02 (February 2000 has 29 days: the excess 2 days roll into March)
+example : bumpStr (mkDate 2000 1 31) (tenor 1 'm') = .ok (mkDate 2000 3 2) := ok_of_okVal (by decide +kernel)
+example : Valid 2000 1 31 ∧ Gen.ym (2000 : Int) ((1 : Int) + 1 * 1) = ((2000 : Int), (2 : Int)) ∧ ¬ (31 ≤ dim 2000 2) := by decide
+
+/-! ### month units away from midnight: the code resets the time of day (why the claim is "at midnight only") -/
+
+/-- a month / quarter / year step ignores the time of day of its start … -/
+theorem month_resets_time (t dy dm : Int) :
+    applyStep t (.ymdShift dy dm) = applyStep (t - todOf t) (.ymdShift dy dm) := by
+  have : ymdOf (t - todOf t) = ymdOf t := by
+    unfold ymdOf; congr 2; unfold ordOf todOf DAYUS; omega
+  simp only [applyStep, this]
+
+/-- … and its result is always a midnight -/
+theorem month_result_midnight (t dy dm r : Int) (h : applyStep t (.ymdShift dy dm) = .ok r) : todOf r = 0 := by
+  simp only [applyStep, ymdDate, mkMonthPlus] at h
+  split at h
+  · rw [checkRange_ok] at h; rw [h.2]; exact todOf_ofOrd _
+  · cases h
+
+example : okVal (applyStep 63083095200000000 (.ymdShift 0 1)) = some 63085737600000000 := by decide +kernel  -- 2000-01-10 10:00 + 1m
+
+/-- hence away from midnight `+x` then `-x` does NOT return to `t` (2000-01-10 10:00 `'1m'` `'-1m'` = 2000-01-10 00:00) -/
+theorem month_intraday_inverse_false :
+    ∃ t r₁ r₂ : Int, bumpStr t (tenor 1 'm') = .ok r₁ ∧ bumpStr r₁ (tenor (-1) 'm') = .ok r₂ ∧ r₂ ≠ t ∧ r₂ = t - todOf t :=
+  ⟨63083095200000000, 63085737600000000, 63083059200000000, ok_of_okVal (by decide +kernel), ok_of_okVal (by decide +kernel),
+    by decide, by decide +kernel⟩
+
+/-! ### the datetimes the business-day block constructs on the way -/
+
+/-- the `'nb'` step succeeds exactly when each of the three datetimes the block constructs (after the weekend roll, after the
+whole weeks, after the remaining days) lies in years 1..9999, and then gives the closed form -/
+theorem b_ok_iff (t n r : Int) :
+    applyStep t (.bday n) = .ok r ↔
+      (∀ k ∈ [if wdOf t > 4 then 7 - wdOf t else 0, (if wdOf t > 4 then 7 - wdOf t else 0) + 7 * (n / 5), bOff (wdOf t) n],
+          InRange (t + k * DAYUS)) ∧ r = t + bOff (wdOf t) n * DAYUS := by
+  rw [bday_ok_iff, bOffPath_eq]
+
+/-- so the code can raise OverflowError although the result exists: 0001-01-03 `'-1b'` passes through `t - 7 days` -/
+theorem b_intermediate_overflow :
+    bumpStr (2 * DAYUS) (tenor (-1) 'b') = .error .other ∧ InRange (2 * DAYUS + bOff (wdOf (2 * DAYUS)) (-1) * DAYUS) := by
+  rw [bumpStr_b]
+  refine ⟨?_, by decide +kernel⟩
+  have h : (match applyStep (2 * DAYUS) (.bday (-1)) with | .error .other => true | _ => false) = true := by decide +kernel
+  revert h
+  cases applyStep (2 * DAYUS) (.bday (-1)) with
+  | ok v => intro h; cases h
+  | error e => cases e <;> intro h <;> first | rfl | cases h
+
+/-! ### K3 exactly: WHEN monotonicity in `t` fails -/
+
+/-- the exact failure set of "monotone in t": for `t₁ ≤ t₂` the images are reversed iff `t₁` lies on a Saturday / Sunday, `t₂`
+lies no later than the Monday that follows `t₁`, and `t₂` has the earlier time of day.  (All three days Sat, Sun, Mon of one
+weekend are sent to the same day and keep their own time of day.)  For every `n`; nothing else ever fails. -/
+theorem b_mono_iff (t₁ t₂ n r₁ r₂ : Int) (h : t₁ ≤ t₂)
+    (h₁ : applyStep t₁ (.bday n) = .ok r₁) (h₂ : applyStep t₂ (.bday n) = .ok r₂) :
+    r₂ < r₁ ↔ (5 ≤ wdOf t₁ ∧ ordOf t₂ ≤ ordOf t₁ + (7 - wdOf t₁) ∧ todOf t₂ < todOf t₁) := by
+  have e₁ := (bday_ok _ _ _ h₁).2
+  have e₂ := (bday_ok _ _ _ h₂).2
+  have s1 := split_t t₁; have s2 := split_t t₂
+  have ho : ordOf t₁ ≤ ordOf t₂ := by unfold ordOf DAYUS at *; omega
+  have hm := b_mono_days (ordOf t₁) (ordOf t₂) n ho
+  have hq := b_eq_iff (ordOf t₁) (ordOf t₂) n ho
+  unfold wdOf at *
+  generalize bOff (wd (ordOf t₁)) n = B₁ at *
+  generalize bOff (wd (ordOf t₂)) n = B₂ at *
+  have w1 := wd_range (ordOf t₁)
+  generalize wd (ordOf t₁) = W at *
+  unfold ofOrd DAYUS at *
+  constructor
+  · intro hlt
+    have heq : ordOf t₁ + B₁ = ordOf t₂ + B₂ := by omega
+    have := hq.1 heq
+    omega
+  · intro ⟨a, b, c⟩
+    have := hq.2 (Or.inr ⟨a, b⟩)
+    omega
+
+-- the hypotheses and the right-hand side are satisfiable: the K3 witness (Sun 23:00 / Mon 00:30)
+example : (63750754800000000 : Int) ≤ 63750760200000000 ∧ 5 ≤ wdOf 63750754800000000 ∧
+    ordOf 63750760200000000 ≤ ordOf 63750754800000000 + (7 - wdOf 63750754800000000) ∧
+    todOf 63750760200000000 < todOf 63750754800000000 := by decide +kernel
+
+/-- the same on strings -/
+theorem b_mono_iff_str (t₁ t₂ n r₁ r₂ : Int) (h : t₁ ≤ t₂)
+    (h₁ : bumpStr t₁ (tenor n 'b') = .ok r₁) (h₂ : bumpStr t₂ (tenor n 'b') = .ok r₂) :
+    r₂ < r₁ ↔ (5 ≤ wdOf t₁ ∧ ordOf t₂ ≤ ordOf t₁ + (7 - wdOf t₁) ∧ todOf t₂ < todOf t₁) := by
+  rw [bumpStr_b] at h₁ h₂; exact b_mono_iff t₁ t₂ n r₁ r₂ h h₁ h₂
+
+/-- consequence: monotone whenever the earlier instant is on a weekday (the later one may be anything) -/
+theorem b_mono_from_weekday (t₁ t₂ n r₁ r₂ : Int) (h : t₁ ≤ t₂) (w₁ : wdOf t₁ < 5)
+    (h₁ : applyStep t₁ (.bday n) = .ok r₁) (h₂ : applyStep t₂ (.bday n) = .ok r₂) : r₁ ≤ r₂ := by
+  have := b_mono_iff t₁ t₂ n r₁ r₂ h h₁ h₂
+  omega
+
+/-! ### the two readings of a negative bump from a weekend day agree -/
+
+/-- from a Saturday / Sunday, `'-kb'` (k ≥ 1) — defined by the code as "roll forward to Monday, then k weekdays back" — is also
+simply the k-th weekday before `o` itself: no weekday lies between `o` and that Monday -/
+theorem b_weekend_bwd (o : Int) (h : 5 ≤ wd o) (k : Nat) :
+    iter prevWd (k + 1) o = o + bOff (wd o) (-((k : Int) + 1)) := by
+  have r := b_weekend_roll o (-((k : Int) + 1)) h
+  have hb := b_nth_bwd (o + (7 - wd o)) (by omega) (k + 1)
+  rw [r.1] at hb
+  rw [r.2]
+  have : ((k + 1 : Nat) : Int) = (k : Int) + 1 := by omega
+  rw [this] at hb
+  rw [← hb, iter_succ_inner, iter_succ_inner]
+  congr 1
+  have w := wd_range o
+  unfold prevWd wd at *; omega
+
+/-- … while forward the roll matters: from a weekend day `'kb'` is the k-th weekday after the MONDAY (`'0b'` = that Monday,
+which is the first weekday after `o`, so `'kb'` is the (k+1)-th weekday after `o`) -/
+theorem b_weekend_fwd (o : Int) (h : 5 ≤ wd o) (k : Nat) :
+    iter nextWd (k + 1) o = o + bOff (wd o) k := by
+  have r := b_weekend_roll o k h
+  have hb := b_nth_fwd (o + (7 - wd o)) (by omega) k
+  rw [r.1] at hb
+  rw [r.2, ← hb, iter_succ_inner]
+  congr 1
+  have w := wd_range o
+  unfold nextWd wd at *; omega
+
+example : (5 : Int) ≤ wd 730120 ∧ iter prevWd 2 730120 = 730118 ∧ iter nextWd 2 730120 = 730123 := by decide
+
+/-! ### no period token is silently ignored -/
+
+/-- whether a letter has a branch does not depend on the count -/
+theorem bumpUnit_isSome_indep (c : Char) (n n' : Int) : (bumpUnit c n).isSome = (bumpUnit c n').isSome := by
+  unfold bumpUnit; repeat' split
+  all_goals rfl
+
+/-- every token the tokenizer can deliver from lower-cased text has a branch in the unit chain: the "no branch, `t` unchanged"
+case of the loop (the code's `if/elif` chain has no `else`; such a token would be consumed and ignored) cannot occur -/
+theorem no_token_ignored (cs : List Char) (n : Int) (c : Char) (rest : List Char)
+    (h : nextToken (cs.map Char.toLower) = some (n, c, rest)) : (bumpUnit c n).isSome = true := by
+  have hs : ∀ cs : List Char, (signSplit cs).2 = cs ∨ ∃ x, cs = x :: (signSplit cs).2 := by
+    intro cs; unfold signSplit; split <;> simp
+  have hsp : ∀ cs : List Char, (spanDigits cs).1 ++ (spanDigits cs).2 = cs := by
+    intro cs; induction cs with
+    | nil => rfl
+    | cons a as ih => unfold spanDigits; split <;> simp [ih]
+  unfold nextToken at h
+  simp only [] at h
+  split at h
+  · cases h
+  · cases h
+  · rename_i ds u r _ hsd
+    split at h
+    · rename_i hu
+      simp only [Option.some.injEq, Prod.mk.injEq] at h
+      obtain ⟨_, hc, _⟩ := h
+      subst hc
+      have hmem : u ∈ cs.map Char.toLower := by
+        have h2 := hsp (signSplit (cs.map Char.toLower)).2
+        rw [hsd] at h2
+        have hu2 : u ∈ (signSplit (cs.map Char.toLower)).2 := by rw [← h2]; simp
+        rcases hs (cs.map Char.toLower) with e | ⟨x, e⟩
+        · rw [e] at hu2; exact hu2
+        · rw [e]; exact List.mem_cons_of_mem _ hu2
+      simp only [List.mem_map] at hmem
+      obtain ⟨x, _, hx⟩ := hmem
+      have hlow : u.toLower = u := by
+        have : ∀ u ∈ periodUnits, (∃ x : Char, x.toLower = u) → u.toLower = u := by
+          intro u hu ⟨x, hx⟩
+          have hup : ∀ u ∈ periodUnits, u.toLower = u ∨ u.isUpper = true := by decide
+          rcases hup u hu with e | e
+          · exact e
+          · exfalso
+            subst hx
+            unfold Char.toLower Char.isUpper at e
+            split at e
+            · rename_i hx
+              simp only [ge_iff_le, decide_eq_true_eq] at e
+              have := e.2
+              revert this e hx
+              generalize x.val = v
+              intro hx e h2
+              simp only [UInt32.le_iff_toNat_le, UInt32.toNat_add] at *
+              have c1 : ('A' : Char).val.toNat = 65 := by decide
+              have c2 : ('Z' : Char).val.toNat = 90 := by decide
+              have c3 : (('a' : Char).val - ('A' : Char).val).toNat = 32 := by decide
+              simp only [c1, c2, c3] at hx e h2
+              omega
+            · rename_i hx
+              simp only [ge_iff_le, decide_eq_true_eq] at e
+              exact hx e
+        exact this u hu ⟨x, hx⟩
+      have := units_covered u hu
+      rw [hlow] at this
+      rw [bumpUnit_isSome_indep u n 0]; exact this
+    · cases h
+
+example : nextToken ("-3B7d".toList.map Char.toLower) = some (-3, 'b', "7d".toList) := by decide
 
 end Pyg.Props.C09
